@@ -206,9 +206,13 @@ def run_case(case):
                     sel = (True,) * len(shp)
                     Sdir = mode_apply(torch, ghat, Xs, sel)
                     sS = mode_apply(torch, ghat.abs(), [x.abs() for x in Xs], sel)
-                    if float(Sdir.norm()) < 1e-10 * max(1.0, float(ghat.norm())):
+                    if float(ghat.norm()) == 0.0:
                         counters["norm_blocks_trivial"] += 1
                         continue
+                    if float(Sdir.norm()) < 1e-10 * max(1.0, float(ghat.norm())):
+                        # a vanishing Shampoo direction for a non-zero gradient (e.g. roots that were never computed) cannot be
+                        # judged for its direction, but the block must still move by the grafted norm
+                        Sdir = None
                 if nB == 0.0 and nA == 0.0:
                     counters["norm_blocks_trivial"] += 1
                     continue
